@@ -333,3 +333,86 @@ func TestVerifC18KFRestoreDropsTombstones(t *testing.T) {
 		stats.KnownReproduced("restore-drops-tombstones", fmt.Sprintf("source reads %d points after a range delete, the restored copy reads %d: tombstone files are skipped by restore, deleted points come back", len(b.model), len(got)))
 	}
 }
+
+// TestVerifC18Incremental: a full backup, further history, then an incremental backup (since = the instant
+// just before the full backup was taken); restoring full + incremental into a fresh store must reproduce
+// the source at the time of the incremental backup.
+func TestVerifC18Incremental(t *testing.T) {
+	stats := verifkit.For("C18", "TestVerifC18Incremental",
+		"bed E: generated history, full BackupShard, more writes/snapshots/compactions, incremental BackupShard(since = instant before the full backup); RestoreShard(full) then RestoreShard(incremental) into a fresh store must equal the source model at the time of the incremental backup. non-trivial = the incremental part holds >=1 new TSM file; distinct = hash of the history")
+	defer stats.Flush()
+	rapid.Check(t, func(rt *rapid.T) {
+		root, err := os.MkdirTemp("", "c18i")
+		if err != nil {
+			rt.Fatal(err)
+		}
+		defer os.RemoveAll(root)
+		b, err := vNewBed(filepath.Join(root, "src"), "inmem", 1)
+		if err != nil {
+			rt.Fatalf("open: %v", err)
+		}
+		defer b.close()
+		b.onExclude = stats.Exclude
+		var canon strings.Builder
+		phase := func(n int) {
+			for i := 0; i < n; i++ {
+				switch rapid.SampledFrom([]string{"write", "write", "snapshot", "snapshot", "compact"}).Draw(rt, "action") {
+				case "write":
+					pts := b.vDrawBatch(rt, 1, 15)
+					if err := b.write(1, pts); err != nil {
+						rt.Fatalf("write: %v", err)
+					}
+					b.applyWrite(1, pts)
+					canon.WriteString("w;")
+				case "snapshot":
+					if err := b.snapshot(1); err != nil {
+						rt.Fatalf("snapshot: %v", err)
+					}
+					canon.WriteString("s;")
+				case "compact":
+					// level compactions only: a full compaction would rewrite files the full backup already holds under new names
+					if _, err := b.compact(1, "l1"); err != nil {
+						rt.Fatalf("compact: %v", err)
+					}
+					canon.WriteString("c;")
+				}
+			}
+		}
+		phase(rapid.IntRange(1, 8).Draw(rt, "steps1"))
+		since := time.Now()
+		var full, incr bytes.Buffer
+		if err := b.store.BackupShard(1, time.Time{}, &full); err != nil {
+			rt.Fatalf("%s full backup: %v", verifkit.Sig("backup-error"), err)
+		}
+		filesAtFull := len(b.tsmFiles(1))
+		canon.WriteString("FULL;")
+		phase(rapid.IntRange(1, 8).Draw(rt, "steps2"))
+		if err := b.store.BackupShard(1, since, &incr); err != nil {
+			rt.Fatalf("%s incremental backup: %v", verifkit.Sig("backup-error"), err)
+		}
+		want := vCopyModel(b.model)
+		newFiles := len(b.tsmFiles(1)) - filesAtFull
+		d, err := vRestoreInto(filepath.Join(root, "dst"), "inmem", full.Bytes(), false)
+		if err != nil {
+			rt.Fatalf("%s restoring the full backup: %v", verifkit.Sig("restore-error"), err)
+		}
+		defer d.close()
+		if err := d.store.RestoreShard(1, bytes.NewReader(incr.Bytes())); err != nil {
+			rt.Fatalf("%s restoring the incremental backup: %v", verifkit.Sig("restore-error"), err)
+		}
+		got, err := d.readAll()
+		if err != nil {
+			rt.Fatalf("%s reading the restored shard: %v", verifkit.Sig("read-error"), err)
+		}
+		d.model = want
+		if k, msg := d.diffModel(got); k != "" {
+			rt.Fatalf("%s full + incremental restore differs from the source at the time of the incremental backup: %s (history %s)", verifkit.Sig("incremental-backup-copy-differs"), msg, canon.String())
+		}
+		stats.Case(newFiles > 0, canon.String(), fmt.Sprintf("new-files:%v", newFiles > 0))
+		if stats.WantSample() {
+			stats.Sample(map[string]interface{}{"history": canon.String(), "points": len(want), "full_bytes": full.Len(), "incremental_bytes": incr.Len()})
+		} else {
+			stats.Sample(nil)
+		}
+	})
+}
